@@ -147,6 +147,11 @@ struct Obs {
     int me;
     int i;
     A inner;
+    // `make` returns the library awaiter as a prvalue: constructed in place, never copied or moved
+    template <typename F>
+    Obs(World &w_, int me_, int i_, F &&make) : w(w_), me(me_), i(i_), inner(make()) {}
+    Obs(const Obs &) = delete;
+    Obs &operator=(const Obs &) = delete;
     bool await_ready() { return inner.await_ready(); }
     auto await_suspend(std::coroutine_handle<> h) {
         w.log(me, i, "s");
@@ -195,16 +200,16 @@ cocls::async<void> body(World &w, int me, Tok tok) {
         fin.i = i;
         w.log(me, i, "b");
         if (k == "pa") {
-            if (w.use_swap) co_await Obs<SwapYield>{w, me, i, {}};
-            else co_await Obs<cocls::pause>{w, me, i, {}};
+            if (w.use_swap) { Obs<SwapYield> o(w, me, i, [&] { return SwapYield{}; }); co_await o; }
+            else { Obs<cocls::pause> o(w, me, i, [&] { return cocls::pause{}; }); co_await o; }
             w.log(me, i, "e");
         } else if (k == "rd") {
             w.prom[a]();
         } else if (k == "ra") {
-            co_await Obs<SPb>{w, me, i, w.prom[a]()};
+            { Obs<SPb> o(w, me, i, [&] { return w.prom[a](); }); co_await o; }
             w.log(me, i, "e");
         } else if (k == "aw") {
-            co_await Obs<FutAw>{w, me, i, w.fut[a]->operator co_await()};
+            { Obs<FutAw> o(w, me, i, [&] { return w.fut[a]->operator co_await(); }); co_await o; }
             w.log(me, i, "e");
         } else if (k == "sd") {
             int child;
@@ -213,12 +218,12 @@ cocls::async<void> body(World &w, int me, Tok tok) {
         } else if (k == "sa") {
             int child;
             cocls::async<void> c = w.make(child);
-            co_await Obs<SPv>{w, me, i, c.detach()};
+            { Obs<SPv> o(w, me, i, [&] { return c.detach(); }); co_await o; }
             w.log(me, i, "e");
         } else if (k == "sc") {
             int child;
             cocls::async<void> c = w.make(child);
-            co_await Obs<cocls::async<void>::co_awaiter>{w, me, i, c.operator co_await()};
+            { Obs<cocls::async<void>::co_awaiter> o(w, me, i, [&] { return c.operator co_await(); }); co_await o; }
             w.log(me, i, "e");
         } else if (k == "bd") {
             int child;
@@ -227,10 +232,10 @@ cocls::async<void> body(World &w, int me, Tok tok) {
         } else if (k == "ba") {
             int child;
             cocls::async<void> c = w.make(child);
-            co_await Obs<SPb>{w, me, i, c.start(w.prom[a])};
+            { Obs<SPb> o(w, me, i, [&] { return c.start(w.prom[a]); }); co_await o; }
             w.log(me, i, "e");
         } else if (k == "pk") {
-            co_await Obs<ParkAw>{w, me, i, {w}};
+            { Obs<ParkAw> o(w, me, i, [&] { return ParkAw{w}; }); co_await o; }
             w.log(me, i, "e");
         } else if (k == "up") {
             if (!w.parked.empty()) {
@@ -239,21 +244,21 @@ cocls::async<void> body(World &w, int me, Tok tok) {
                 cocls::coro_queue::resume(h);
             }
         } else if (k == "lk") {
-            own = co_await Obs<cocls::co_awaiter<cocls::mutex>>{w, me, i, w.mx.lock()};
+            { Obs<cocls::co_awaiter<cocls::mutex>> o(w, me, i, [&] { return w.mx.lock(); }); own = co_await o; }
             w.log(me, i, "e");
         } else if (k == "ld") {
             own.release();
         } else if (k == "la") {
-            co_await Obs<SPv>{w, me, i, own.release()};
+            { Obs<SPv> o(w, me, i, [&] { return own.release(); }); co_await o; }
             w.log(me, i, "e");
         } else if (k == "qo") {
             cocls::future<void> f = w.q.pop();
-            co_await Obs<FutAw>{w, me, i, f.operator co_await()};
+            { Obs<FutAw> o(w, me, i, [&] { return f.operator co_await(); }); co_await o; }
             w.log(me, i, "e");
         } else if (k == "qd") {
             w.q.push();
         } else if (k == "qa") {
-            co_await Obs<SPb>{w, me, i, w.q.push()};
+            { Obs<SPb> o(w, me, i, [&] { return w.q.push(); }); co_await o; }
             w.log(me, i, "e");
         } else if (k == "re") {
             co_return;
